@@ -3,7 +3,8 @@ import core
 from coqterm import B, Rec
 import statelib as L
 from statelib import (C_LAUNCHED, C_BUILT, C_GUARD_WAIT, C_EXTENDED, C_FAILED, C_CLOSED,
-                      S_NEW, S_REMAP, S_SENTCONNECT, S_SUCCEEDED, S_DETACHED, S_FAILED, S_CLOSED)
+                      S_NEW, S_REMAP, S_SENTCONNECT, S_SUCCEEDED, S_DETACHED, S_FAILED, S_CLOSED, S_NEWRESOLVE,
+                      S_SENTRESOLVE)
 from drive_C07 import Walker, enumerate_histories, answer_build, with_builds
 
 CMETH = ['circuit_new', 'circuit_launched', 'circuit_extend', 'circuit_built', 'circuit_closed', 'circuit_failed']
@@ -41,7 +42,11 @@ class Runner:
                 self.n = n
 
             def _c(self, m, circuit, arg=0, kw=None):
+                if L.listener_queries(self.n):
+                    arg += 2000 if w.state.circuits.get(circuit.id) is circuit else 1000
                 runner.cur.append(['c', self.n, m, L.World._n(w.coid(circuit)), arg, flags(kw or {})])
+                if L.listener_raises(self.n, m):
+                    raise L.ListenerBug('circuit listener %d in method %d' % (self.n, m))
 
             def circuit_new(self, circuit):
                 self._c(0, circuit)
@@ -67,7 +72,11 @@ class Runner:
                 self.n = n
 
             def _s(self, m, stream, arg=0, kw=None):
+                if L.listener_queries(self.n):
+                    arg += 2000 if w.state.streams.get(stream.id) is stream else 1000
                 runner.cur.append(['s', self.n, m, L.World._n(w.soid(stream)), arg, flags(kw or {})])
+                if L.listener_raises(self.n, m):
+                    raise L.ListenerBug('stream listener %d in method %d' % (self.n, m))
 
             def stream_new(self, stream):
                 self._s(0, stream)
@@ -362,12 +371,20 @@ def make_case(rng, n_ops):
     sids = list(range(1, rng.choice([2, 3, 3, 4]) + 1))
     wk = Walker(rng, cons, cids, sids, nrelay)
     tr = Tracker()
-    nl = rng.choice([1, 2, 3])
+    # the listeners of this case: well-behaved ones (0-2), ones that raise from one method (8 * (m + 1) + i) and
+    # ones that look their object up in TorState from inside every callback (>= 64)
+    pool = [0, 1, 2][:rng.choice([1, 2, 3])]
+    if rng.random() < 0.45:
+        pool.append(8 * (rng.randrange(6) + 1) + rng.randrange(2))
+        if rng.random() < 0.3:
+            pool.append(8 * (rng.randrange(6) + 1) + 2)
+    if rng.random() < 0.35:
+        pool.append(64 + rng.randrange(2))
     tags = set()
     pre = []
     for _ in range(rng.choice([0, 0, 1, 2])):
         circ = rng.random() < 0.5
-        l = rng.randrange(nl)
+        l = rng.choice(pool)
         pre.append(['acl' if circ else 'asl', l])
         tr.add_global(circ, l)
     snap = []
@@ -430,7 +447,7 @@ def make_case(rng, n_ops):
             event(wk.circ_action() if rng.random() < 0.45 else wk.stream_action())
         elif r < pe + 0.08:
             circ = rng.random() < 0.5
-            l = rng.randrange(nl)
+            l = rng.choice(pool)
             ops.append(['acl' if circ else 'asl', l])
             tr.add_global(circ, l)
         elif r < pe + 0.2:
@@ -447,7 +464,7 @@ def make_case(rng, n_ops):
                 ops.append(['cu' if circ else 'su', i, l])
                 tags.add('unlisten')
             else:
-                l = rng.randrange(nl)
+                l = rng.choice(pool)
                 if l not in o['regs']:
                     o['regs'].append(l)
                 ops.append(['cl' if circ else 'sl', i, l])
@@ -501,7 +518,8 @@ class P(core.Prop):
     shard = 200
     design_ref = '5/C08'
     rule = ('C07\'s random walks on Tor\'s view (<= 4 circuit and <= 4 stream ids, all statuses, id reuse, circuits closing '
-            'under streams, optional snapshot) crossed with: 1-3 listeners per kind added globally before the bootstrap '
+            'under streams, RESOLVE streams, optional snapshot) crossed with: 1-5 listeners (well-behaved; raising from one '
+            'callback; looking the object up in TorState from inside every callback) added globally before the bootstrap '
             'or at any position, listen/unlisten on live and dead objects, when_built / when_closed / close requested on '
             'live objects (80%) and on objects already gone, repeated close requests, and the acknowledgement of each '
             'close command at a random later position (before or after the CLOSED/FAILED event, which is scheduled with '
